@@ -310,6 +310,8 @@ fn end(s: &str) -> Option<End> {
 fn take(s: &str) -> Option<Take> {
     if s == "z" {
         Some(Take::Last)
+    } else if s == "tM" {
+        Some(Take::Nth(usize::MAX))
     } else if let Some(k) = s.strip_prefix('t') {
         Some(Take::Nth(k.parse().ok()?))
     } else {
